@@ -222,6 +222,10 @@ pub struct ChatScn {
     /// registered that nick since - decided from what the harness knows (who connected
     /// as whom, which connections are gone) and the server's user table
     pub orphan_check: bool,
+    /// slots whose set of lines sent so far is part of the state key: histories that leave the
+    /// same published state but differ in what these connections have already tried are
+    /// explored separately (a connection may remember an earlier attempt invisibly)
+    pub key_tried: Vec<usize>,
 }
 
 impl ChatScn {
@@ -250,6 +254,7 @@ impl ChatScn {
             spec_skip: None,
             key_now: false,
             orphan_check: false,
+            key_tried: vec![],
         }
     }
 
@@ -426,6 +431,20 @@ impl Scenario for ChatScn {
     }
     fn goals(&self) -> Vec<&'static str> {
         self.goals.clone()
+    }
+    fn key_hist(&self, hist: &[Act]) -> u64 {
+        if self.key_tried.is_empty() {
+            return 0;
+        }
+        let mut seen: BTreeSet<(usize, &str)> = BTreeSet::new();
+        for a in hist {
+            if let Act::Send(i, l) = a {
+                if self.key_tried.contains(i) {
+                    seen.insert((*i, l.as_str()));
+                }
+            }
+        }
+        1 + (crate::canon::hash128(&seen) as u64 >> 1)
     }
     fn key_extra(&self, w: &World) -> u64 {
         if self.key_now {
